@@ -22,6 +22,8 @@ type X struct {
 	pkgs map[string][]*ast.File
 	defs []string
 	errs []string
+	// normalize: rewrite parsed files (constant inlining, switch -> if chains); see normalize.go
+	normalize bool
 }
 
 func newX(repo, prop string) *X {
@@ -52,6 +54,9 @@ func (x *X) files(dir string) []*ast.File {
 			continue
 		}
 		out = append(out, f)
+	}
+	if x.normalize {
+		x.normalizeFiles(out)
 	}
 	x.pkgs[dir] = out
 	return out
